@@ -216,7 +216,7 @@ def tr(r, o):
 def run(ctx):
     rng = ctx.rng("histories")
     cases = []
-    for _ in range(ctx.budget(400, 10000)):
+    for _ in range(ctx.budget(1200, 10000)):
         t = X.gen_plain(rng, rng.choice([2, 3, 4]), "d")
         cases.append({"tree": t, "mode": rng.choice(["n0", "wrap"]), "ops": gen_history(rng, t, rng.randrange(1, 9))})
     ctx.evaluate("history", cases, check_history, nontrivial=lambda c: len(c["ops"]) > 1)
